@@ -8,7 +8,7 @@ func init() { Register("C12", runC12) }
 
 func runC12(c *Ctx) {
 	r := c.R
-	r.Explanation = "Decides the lock-discipline clauses behind 'Broker calls terminate under re-entrancy' on the whole call graph (CHA over the 7 packages): no lock class is re-acquired while it may be held (LO1), the lock-order graph is acyclic (LO2), no extension point named by the property (Node.Process, Node.Reopen, Closer.Close) is invoked while Broker.lock may be held in any mode (LO3), nothing is held by Send across processing (LO4), and every acquisition is released on every path. These are reachability facts over all call chains, including chains no test executes. Termination of user nodes and of third-party code is not decided. C12.held-send: a library node does not send through the Broker while holding a lock its own Process acquires (known finding F37: the gated filter does, and exception E1 only covers the composed event itself). C12.wg: the wait-group / collector protocol of C03 (an unmatched Add leaves Send waiting). C12.release panic-safe: a section of the Broker lock released by an explicit unlock runs no foreign code. C12.progress list-progress: every list loop of the gated filter moves on in every iteration. C12.inventory: every blocking operation reachable from Send belongs to the status protocol. C12.release also counts interface-keyed map operations, interface comparisons and closures handed to callees. C12.wait: nothing waits while Broker.lock may be held. C12.stringer: no String / Error / GoString / Format method of a lock-owning type acquires that lock (fmt calls them wherever the value is printed, also under the lock)."
+	r.Explanation = "Decides the lock-discipline clauses behind 'Broker calls terminate under re-entrancy' on the whole call graph (CHA over the 7 packages): no lock class is re-acquired while it may be held (LO1), the lock-order graph is acyclic (LO2), no extension point named by the property (Node.Process, Node.Reopen, Closer.Close) is invoked while Broker.lock may be held in any mode (LO3), nothing is held by Send across processing (LO4), and every acquisition is released on every path. These are reachability facts over all call chains, including chains no test executes. Termination of user nodes and of third-party code is not decided. C12.held-send: a library node does not send through the Broker while holding a lock its own Process acquires (known finding F37: the gated filter does, and exception E1 only covers the composed event itself). C12.wg: the wait-group / collector protocol of C03 (an unmatched Add leaves Send waiting). C12.release panic-safe: a section of the Broker lock released by an explicit unlock runs no foreign code. C12.progress list-progress: every list loop of the gated filter moves on in every iteration. C12.inventory: every blocking operation reachable from Send belongs to the status protocol. C12.release also counts interface-keyed map operations, interface comparisons and closures handed to callees. C12.wait: nothing waits while Broker.lock may be held. C12.stringer: no String / Error / GoString / Format method of a lock-owning type acquires that lock (fmt calls them wherever the value is printed, also under the lock). C12.inventory outside-send: nothing in package eventlogger outside Send's status protocol waits (channel operations, WaitGroup.Wait, Cond.Wait, Sleep)."
 	r.NotDecided = []string{"termination of user-supplied nodes, predicates, signers, writers", "bounded time in the wall-clock sense"}
 	c.lockControls()
 	// the one loop that runs under Broker.lock:W over a data structure (the worklist of flatten) makes progress
